@@ -265,7 +265,17 @@ func init() {
 		o.PredPct, o.FallbackPct, o.InstrPct = 35, 30, 50
 		g := genPart(c, "C12", c.pick(50, 400), c.pick(50, 400), o, 1, "ok,pred,fault,cancel,conc", c.pick(4, 12), true,
 			"any execution under the race detector in quiet mode (stubs share nothing; values only flow through generated plumbing)")
-		both(c, s, g)
+		parts := map[string]map[string]interface{}{}
+		if s != nil {
+			parts["S"] = s
+		}
+		if g != nil {
+			parts["G"] = g
+		}
+		if e := emitPartRace(c, true); e != nil {
+			parts["E"] = e
+		}
+		writeEvidence(c, mergeCov(parts), append(append([]string{}, assumeS...), assumeG...))
 	}
 	checks["C15"] = func(c *ctx) {
 		o := prog.DefaultOpts()
